@@ -7,6 +7,7 @@
  *           ed         ed_param_set_any()           eb<N>   eb_param_set(N)
  *   bytes   hex string ("." = empty): the message, or the uniform bytes of ep_map_rnd
  *   ops     map_params                      dump of the implementation-defined constants (judged by the spec)
+ *           rfc9380_bls12381g1              the same dump; the spec evaluates the RFC 9380 J.9.1 vector with them
  *           ep_map ep_map_basic ep_map_sswum ep_map_swift ep_map_rnd
  *           ep2_map ep2_map_basic ep2_map_sswum ep2_map_swift
  *           ed_map  ed_map_dst <curve> <msg> <dst>          eb_map
@@ -368,6 +369,7 @@ static int run_case(void) {
 		return 1;
 	}
 	if (OP("map_params")) do_params();
+	else if (OP("rfc9380_bls12381g1")) { ep_hdr(op); fin(0, 0); }   /* constants only: the spec evaluates the RFC vector */
 	else if (OP("ep_map")) do_ep_map(op, w_ep_map, 0);
 	else if (OP("ep_map_basic")) do_ep_map(op, ep_map_basic, 0);
 	else if (OP("ep_map_sswum")) do_ep_map(op, ep_map_sswum, 0);
